@@ -405,12 +405,14 @@ class Imaging(AbstractDataset):
             values=data,
             shape_native=self.data.shape_native,
             pixel_scales=self.data.pixel_scales,
+            origin=self.data.origin,
         )
 
         noise_map = Array2D.no_mask(
             values=noise_map,
             shape_native=self.data.shape_native,
             pixel_scales=self.data.pixel_scales,
+            origin=self.data.origin,
         )
 
         dataset = Imaging(
